@@ -619,7 +619,16 @@ func (ex *Exec) callFunction(st *State, fn *ssa.Function, args []Value, bind []V
 				ex.restrictions++
 				v := &VC{Kind: "unwind", Site: fmt.Sprintf("%s loop at block %d exceeds unwinding bound %d", fn.String(), h.Index, ex.Kunwind), Result: "unknown", Harness: ex.harness}
 				ex.vcs = append(ex.vcs, v)
-				ex.undecided = append(ex.undecided, v)
+				// an input that drives the loop past the bound is a candidate
+				// hang: it is reported only if the native run does not finish
+				// (otherwise the bound was too small and the case is undecided)
+				if r, mdl := ex.decide(ex.pcTerm(ds)); r == "sat" {
+					v.Result = "sat"
+					v.Model = mdl
+					ex.violations = append(ex.violations, v)
+				} else {
+					ex.undecided = append(ex.undecided, v)
+				}
 				released = true
 				break
 			}
